@@ -232,6 +232,17 @@ def gen_LC():
                 yield cfg
 
 
+def gen_LS():
+    """Strict slash mode, a leaf pattern made only of an optional binding: '/' is the empty assignment and the
+    binding is then supplied as None."""
+    for cfg in gen_L1a(1, False):
+        if cfg['url'] != ['a']:
+            continue
+        cfg['url_optional'] = True
+        cfg['slash_mode'] = 'strict'
+        yield cfg
+
+
 def gen_LE(m):
     """The L1a configurations again, but with the application embedded in an outer application (resources of
     the embedded application must still reach its routes)."""
@@ -239,17 +250,23 @@ def gen_LE(m):
         cfg['embedded'] = True
         cfg['outer_res'] = []
         yield cfg
+        if not (cfg['url'] or cfg['app_res'] or cfg['route_res'] or any(m.get(PROVIDES_ATTR[ph]) for m in cfg['mws'] for ph in PHASES)):
+            # source 'none' again, but now the *embedding prefix* binds the name
+            import copy
+            c2 = copy.deepcopy(cfg)
+            c2['prefix_url'] = ['a']
+            yield c2
 
 
 def layers(tier):
     if tier == 'quick':
         return [('L1a-0', lambda: gen_L1a(0, False)), ('L1a-1', lambda: gen_L1a(1, False)),
                 ('L1a-2r', lambda: gen_L1a(2, True)), ('L1c', gen_L1c), ('L2-1', lambda: gen_L2(1)),
-                ('LB', gen_LB), ('LC', gen_LC), ('LE-1', lambda: gen_LE(1))]
+                ('LB', gen_LB), ('LC', gen_LC), ('LE-1', lambda: gen_LE(1)), ('LS', gen_LS)]
     return [('L1a-0', lambda: gen_L1a(0, False)), ('L1a-1', lambda: gen_L1a(1, False)),
             ('L1a-2', lambda: gen_L1a(2, False)), ('L1b-3', lambda: gen_L1b(3)), ('L1b-4', lambda: gen_L1b(4)),
             ('L1c', gen_L1c), ('L2-1', lambda: gen_L2(1)), ('L2-2', lambda: gen_L2(2)), ('LB', gen_LB), ('LC', gen_LC),
-            ('LE-1', lambda: gen_LE(1)), ('LE-2', lambda: gen_LE(2))]
+            ('LE-1', lambda: gen_LE(1)), ('LE-2', lambda: gen_LE(2)), ('LS', gen_LS)]
 
 
 def cfg_roles(cfg):
@@ -281,6 +298,8 @@ def innermost_clastic_frame(exc):
 
 
 def check_config(acc, h, cfg, layer, reraise_handler):
+    if not cfg.get('prefix_url'):
+        cfg = dict(cfg, sibling=True)     # a plain route bound afterwards: accepted whenever the configuration is
     info = B.analyse_all(cfg)
     acc.evaluated += 1
     acc.transitions += 1
@@ -312,7 +331,12 @@ def check_config(acc, h, cfg, layer, reraise_handler):
                       'configuration accepted although %s' % info['why'], case)
         return
     # accepted: no request may fail because of how the framework calls the functions
-    for what, path, method, want in (('hit', h.path, 'GET', 200), ('404', '/zz', 'GET', 404), ('405', h.path, 'POST', 405)):
+    reqs = [('hit', h.path, 'GET', 200), ('404', '/zz/zz', 'GET', 404), ('405', h.path, 'POST', 405)]
+    if cfg.get('sibling'):
+        reqs.append(('sibling', '/sib', 'GET', 200))
+    if h.path_absent:
+        reqs.append(('hit-absent', h.path_absent, 'GET', 200))
+    for what, path, method, want in reqs:
         res, trace = chain.run_request(h, path, method)
         acc.transitions += 1
         if res.raised is not None:
